@@ -67,8 +67,8 @@ set(v)
 iter(v)
 iter(v)
 iter(v)
-reversed(v)
-reversed(v)
+reversed(tuple(v))
+reversed(list(v))
 tuple(v)
 tuple(v)
 tuple(v)
